@@ -353,6 +353,23 @@ def through_file_cases(ctx):
                 except Exception as exc:
                     ctx.fail('track reader == message', f'through-file:{type(exc).__name__}:{dress}', case, f'{type(exc).__name__}: {exc}')
                 n += 1
+    # text of any length up to the reader's one-million-byte message limit: written, and read back
+    for t, nbytes in (('text', 999995), ('lyrics', 999996), ('marker', 1000000), ('sequencer_specific', 1000000), ('track_name', 999999)):
+        case = {'kind': 'through-file', 'type': t, 'payload_bytes': nbytes, 'dress': 'at-the-limit', 'charset': 'latin1'}
+        try:
+            if t == 'sequencer_specific':
+                m = MetaMessage(t, data=tuple(i % 256 for i in range(nbytes)), time=1)
+            else:
+                m = MetaMessage(t, **{rmeta.SPECS[t][1][0]: ('abcdefghij' * (nbytes // 10 + 1))[:nbytes]}, time=1)
+            mid = mido.MidiFile()
+            mid.tracks.append(mido.MidiTrack([m]))
+            buf = io.BytesIO()
+            mid.save(file=buf)
+            back = mido.MidiFile(file=io.BytesIO(buf.getvalue()))
+            ctx.check('track reader == message', back.tracks[0][0] == m, 'through-file:at-the-limit', case, repr(back.tracks[0][0])[:80])
+        except Exception as exc:
+            ctx.fail('track reader == message', f'through-file:at-the-limit:{type(exc).__name__}', case, f'{type(exc).__name__}: {exc}'[:200])
+        n += 1
     return n
 
 
